@@ -460,6 +460,27 @@ func judgeTamper(lab *kslab.Lab, f fileRef, heldKey []byte, off, mask int, paylo
 			run.Violation(base+"modification-not-detected", fmt.Sprintf("%s: byte %d of %s xor %#02x: reading %s (%s) returned the key held by the modified file: the change was not detected", lab.Cfg.Name(), off, f.Label, mask, f.Slot, l.parts[i]), payload)
 		}
 	}
+	// a read of ALL keys of the slot reads the modified file: when it reports success, the key held
+	// by that file must be among the answers (then the case above fired) - a success that silently
+	// leaves the key out hides the modification from the reader
+	if format == "v1" && heldKey != nil {
+		allOK, allHasHeld := false, false
+		for _, e := range l.errs {
+			if e == "all:ok" {
+				allOK = true
+			}
+		}
+		for i, v := range l.vals {
+			if l.parts[i] == "all" && bytes.Equal(v, heldKey) {
+				allHasHeld = true
+			}
+		}
+		if allOK && !allHasHeld {
+			outcome = "silently-skipped"
+			payload.Seen = "all succeeded without the key of the modified file"
+			run.Violation(base+"modified-file-silently-skipped", fmt.Sprintf("%s: byte %d of %s xor %#02x: reading all keys of %s reported success and left the key of the modified file out: the change was not detected by the read that covers the file", lab.Cfg.Name(), off, f.Label, mask, f.Slot), payload)
+		}
+	}
 	if outcome == "detected" && len(l.vals) > 0 {
 		outcome = "detected(other-files-still-served)"
 	}
